@@ -67,28 +67,42 @@ def run(ctx):
         f, key = D.visitor_dispatch(m, FR, nodes[name], handlers)
         if f is None:
             raise AnalysisError(f'FindReads has no handler for {name}')
-        if f.fqn not in memo:
-            src = ast.unparse(f.node)
-            clears_with_summary = '_register_writes(o.defines_symbols)' in src
-            saves = 'candidate_set.copy()' in src and ('candidate_set |=' in src or '|= candidate_set' in src)
-            visits = 'self.visit(' in src
-            memo[f.fqn] = (clears_with_summary, saves, visits)
-        clears, saves, visits = memo[f.fqn]
+        src = ast.unparse(f.node)
+        clears = '_register_writes(o.defines_symbols)' in src
+        saves = 'candidate_set.copy()' in src and ('candidate_set |=' in src or '|= candidate_set' in src)
+        visits = 'self.visit(' in src
+        alts = [c for c in ast.walk(f.node) if isinstance(c, ast.Call) and X.dotted_attr(c.func) == 'self._visit_alternatives']
         facts = {'handler': f.qualname, 'key': key, 'clears_candidates_with_node_summary': clears, 'saves_and_unions_candidates': saves,
-                 'descends': visits}
+                 'descends': visits, 'alternatives': [ast.unparse(c.args[0]) for c in alts if c.args]}
         inst = f'FindReads x {name}'
         if clears:
             ctx.violation('R1', f'FindReads:{name}:summary-kill', f.where,
                           f'{name} ({why}) is handled by {f.qualname}, which clears candidates with the node\'s summarised '
                           f'defines_symbols: a variable written only on some path / iteration is dropped and a later read of the '
                           f'earlier value is not reported', facts=facts, instance=inst)
-        elif visits and not saves:
+        elif alts:
+            # the alternatives handed to the merge helper must contain a way around the bodies: the else branch, or an empty alternative
+            arg = alts[0].args[0] if alts[0].args else None
+            elts = [ast.unparse(e) for e in arg.elts] if isinstance(arg, ast.Tuple) else []
+            skip = '()' in elts or any(e.endswith('.else_body') for e in elts)
+            if len(alts) == 1 and skip and FR.function('_visit_alternatives') is not None:
+                ctx.judge('R1', inst, facts=facts)
+            else:
+                ctx.violation('R1', f'FindReads:{name}:no-skip-alternative', f.where,
+                              f'{name} ({why}) hands {elts} to the merge helper without an alternative for "no body executed" (else branch '
+                              f'or empty tuple): a write in the body kills the candidate although the body may not run', facts=facts,
+                              instance=inst)
+        elif visits and saves:
+            ctx.judge('R1', inst, facts=facts)
+        elif visits:
             ctx.violation('R1', f'FindReads:{name}:no-merge', f.where,
                           f'{name} ({why}) is handled by {f.qualname}, which descends into the body with the live candidate set and '
                           f'never restores/unions it: writes inside a body that may not execute kill the candidate', facts=facts,
                           instance=inst)
         else:
-            ctx.judge('R1', inst, facts=facts)
+            ctx.violation('R1', f'FindReads:{name}:body-not-analysed', f.where,
+                          f'{name} ({why}) is handled by {f.qualname}, which neither descends into the bodies nor uses the node summary: '
+                          f'reads inside the construct are not reported', facts=facts, instance=inst)
     # ---- R2
     lcd = m.get_function(FILE, 'loop_carried_dependencies')
     rets = [ast.unparse(r.value) for r in ast.walk(lcd.node) if isinstance(r, ast.Return)]
@@ -115,82 +129,106 @@ def run(ctx):
     from sa.rules.c26 import check_alternatives
     check_alternatives(ctx, m.get_class(FILE, 'DataflowAnalysisAttacher'), 'R4')
     # ---- R5
-    ctx.rule('R5', 'FindReads.visit_Conditional: each branch is visited with self.candidate_set == C0 and the handler exits with the '
-                   'union of the post-branch states (symbolic execution of the handler body)')
+    ctx.rule('R5', 'FindReads.visit_Conditional and FindReads._visit_alternatives: each alternative is visited with self.candidate_set == C0 '
+                   'and the function exits with the union of the post-states (symbolic execution of the body)')
+
+    def symexec(fn, loop_items=None):
+        """abstract states: None | frozenset of atoms; atoms 'C0' or ('K', branch, pre-state)"""
+        C0 = frozenset({'C0'})
+        state = {'self.candidate_set': C0}
+        visits = []
+        qn = fn.qualname
+
+        def val(e):
+            if isinstance(e, ast.Constant) and e.value is None:
+                return None
+            if isinstance(e, ast.IfExp):
+                return val(e.body) if test(e.test) else val(e.orelse)
+            if isinstance(e, ast.Call) and isinstance(e.func, ast.Attribute) and e.func.attr == 'copy' and not e.args:
+                return val(e.func.value)
+            if isinstance(e, ast.Call) and X.call_name_of(e) in ('set', 'OrderedSet', 'frozenset') and len(e.args) == 1:
+                return val(e.args[0])
+            if isinstance(e, ast.BinOp) and isinstance(e.op, ast.BitOr):
+                return val(e.left) | val(e.right)
+            k = ast.unparse(e)
+            if k in state:
+                return state[k]
+            raise AnalysisError(f'{qn}: cannot evaluate `{k}` symbolically')
+
+        def test(t):
+            if isinstance(t, ast.Compare) and len(t.ops) == 1 and isinstance(t.comparators[0], ast.Constant) and t.comparators[0].value is None:
+                v = val(t.left)
+                return (v is None) if isinstance(t.ops[0], ast.Is) else (v is not None)
+            raise AnalysisError(f'{qn}: unrecognised guard `{ast.unparse(t)}`')
+
+        def run_stmts(stmts):
+            for st in stmts:
+                if isinstance(st, ast.Expr) and isinstance(st.value, ast.Constant):
+                    continue
+                if isinstance(st, ast.If):
+                    run_stmts(st.body if test(st.test) else st.orelse)
+                    continue
+                if isinstance(st, ast.For) and loop_items is not None and isinstance(st.target, ast.Name):
+                    for it in loop_items:
+                        state[st.target.id] = ('BODY', it)
+                        run_stmts(st.body)
+                    continue
+                if isinstance(st, ast.Expr) and isinstance(st.value, ast.Call):
+                    d = X.dotted_attr(st.value.func) or ''
+                    if d == 'self.visit' and st.value.args:
+                        a = st.value.args[0]
+                        br = state[a.id][1] if isinstance(a, ast.Name) and isinstance(state.get(a.id), tuple) else ast.unparse(a)
+                        pre = state['self.candidate_set']
+                        visits.append((br, pre, st.lineno))
+                        state['self.candidate_set'] = None if pre is None else frozenset({('K', br, pre)})
+                        continue
+                    if d in ('self._register_reads',):
+                        continue
+                    raise AnalysisError(f'{qn}: unrecognised call `{ast.unparse(st.value)[:60]}`')
+                if isinstance(st, ast.Assign) and len(st.targets) == 1:
+                    tg = st.targets[0]
+                    if isinstance(tg, ast.Tuple) and isinstance(st.value, ast.Tuple) and len(tg.elts) == len(st.value.elts):
+                        vals = [val(v) for v in st.value.elts]
+                        for t_, v_ in zip(tg.elts, vals):
+                            state[ast.unparse(t_)] = v_
+                        continue
+                    state[ast.unparse(tg)] = val(st.value)
+                    continue
+                if isinstance(st, ast.AugAssign) and isinstance(st.op, ast.BitOr):
+                    state[ast.unparse(st.target)] = val(st.target) | val(st.value)
+                    continue
+                raise AnalysisError(f'{qn}: unrecognised statement `{ast.unparse(st)[:60]}`')
+        run_stmts(X.body_nodoc(fn.node))
+        return C0, visits, state['self.candidate_set']
+
+    def judge_merge(fn, loop_items=None, floor=2):
+        C0, visits, final = symexec(fn, loop_items)
+        ctx.floor('R5', f'alternative visits in {fn.qualname}', len(visits), floor)
+        want = frozenset()
+        for br, pre, line in visits:
+            want |= frozenset({('K', br, C0)})
+            inst = f'{fn.qualname}:enter:{br}'
+            if pre == C0:
+                ctx.judge('R5', inst)
+            else:
+                ctx.violation('R5', inst, f'{fn.module.relpath}:{line}',
+                              f'the alternative `{br}` is visited with the candidate set left behind by a sibling alternative (state '
+                              f'{sorted(map(str, pre or []))}), not with the set on entry: a variable overwritten in one branch is no longer a '
+                              f'candidate while the other branch is scanned, so its read of the earlier value is not reported')
+        if final == want:
+            ctx.judge('R5', f'{fn.qualname}:exit', facts={'final': sorted(map(str, final))})
+        else:
+            ctx.violation('R5', f'{fn.qualname}:exit', fn.where,
+                          f'the function leaves candidate set {sorted(map(str, final or []))}, expected the union of the post-states of all '
+                          f'alternatives {sorted(map(str, want))}: candidates killed on one path only are lost for the code after the construct')
     vc = FR.function('visit_Conditional')
     if vc is None:
         raise AnalysisError('FindReads.visit_Conditional vanished')
-    C0 = frozenset({'C0'})
-    state = {'self.candidate_set': C0}
-    visits = []
-
-    def val(e):
-        if isinstance(e, ast.IfExp):          # `x.copy() if x is not None else None`: the non-None arm
-            return val(e.body)
-        if isinstance(e, ast.Call) and isinstance(e.func, ast.Attribute) and e.func.attr == 'copy' and not e.args:
-            return val(e.func.value)
-        if isinstance(e, ast.Call) and X.call_name_of(e) in ('set', 'OrderedSet', 'frozenset') and len(e.args) == 1:
-            return val(e.args[0])
-        if isinstance(e, ast.BinOp) and isinstance(e.op, ast.BitOr):
-            return val(e.left) | val(e.right)
-        k = ast.unparse(e)
-        if k in state:
-            return state[k]
-        raise AnalysisError(f'FindReads.visit_Conditional: cannot evaluate `{k}` symbolically')
-
-    def run_stmts(stmts):
-        for st in stmts:
-            if isinstance(st, ast.Expr) and isinstance(st.value, ast.Constant):
-                continue
-            if isinstance(st, ast.If):
-                t = ast.unparse(st.test)
-                if t.replace(' ', '') in ('self.candidate_setisnotNone', 'candidate_setisnotNone'):
-                    run_stmts(st.body)
-                    continue
-                raise AnalysisError(f'FindReads.visit_Conditional: unrecognised guard `{t}`')
-            if isinstance(st, ast.Expr) and isinstance(st.value, ast.Call):
-                d = X.dotted_attr(st.value.func) or ''
-                if d == 'self.visit' and st.value.args:
-                    br = ast.unparse(st.value.args[0])
-                    visits.append((br, state['self.candidate_set'], st.lineno))
-                    state['self.candidate_set'] = frozenset({('K', br, state['self.candidate_set'])})
-                    continue
-                if d in ('self._register_reads',):
-                    continue
-                raise AnalysisError(f'FindReads.visit_Conditional: unrecognised call `{ast.unparse(st.value)[:60]}`')
-            if isinstance(st, ast.Assign) and len(st.targets) == 1:
-                tg = st.targets[0]
-                if isinstance(tg, ast.Tuple) and isinstance(st.value, ast.Tuple) and len(tg.elts) == len(st.value.elts):
-                    vals = [val(v) for v in st.value.elts]
-                    for t_, v_ in zip(tg.elts, vals):
-                        state[ast.unparse(t_)] = v_
-                    continue
-                state[ast.unparse(tg)] = val(st.value)
-                continue
-            if isinstance(st, ast.AugAssign) and isinstance(st.op, ast.BitOr):
-                state[ast.unparse(st.target)] = val(st.target) | val(st.value)
-                continue
-            raise AnalysisError(f'FindReads.visit_Conditional: unrecognised statement `{ast.unparse(st)[:60]}`')
-    run_stmts(X.body_nodoc(vc.node) if hasattr(X, 'body_nodoc') else vc.node.body)
-    ctx.floor('R5', 'branch visits in FindReads.visit_Conditional', len(visits), 2)
-    want = frozenset()
-    for br, pre, line in visits:
-        want |= frozenset({('K', br, C0)})
-        inst = f'FindReads.visit_Conditional:enter:{br}'
-        if pre == C0:
-            ctx.judge('R5', inst)
-        else:
-            ctx.violation('R5', inst, f'{vc.module.relpath}:{line}',
-                          f'the branch `{br}` is visited with the candidate set left behind by a sibling branch (state {sorted(map(str, pre))}), '
-                          f'not with the set on entry: a variable overwritten in the IF branch is no longer a candidate while the ELSE branch '
-                          f'is scanned, so its read of the earlier value is not reported')
-    final = state['self.candidate_set']
-    if final == want:
-        ctx.judge('R5', 'FindReads.visit_Conditional:exit', facts={'final': sorted(map(str, final))})
-    else:
-        ctx.violation('R5', 'FindReads.visit_Conditional:exit', vc.where,
-                      f'the handler leaves candidate set {sorted(map(str, final))}, expected the union of the post-states of all branches '
-                      f'{sorted(map(str, want))}: candidates killed on one path only are lost for the code after the conditional')
+    if '_visit_alternatives' not in ast.unparse(vc.node):
+        judge_merge(vc)
+    va = FR.function('_visit_alternatives')
+    if va is not None:
+        judge_merge(va, loop_items=['alt1', 'alt2'])
     # ---- R3
     lf = FR.function('visit_LeafNode')
     calls = [(c.lineno, X.dotted_attr(c.func)) for c in ast.walk(lf.node) if isinstance(c, ast.Call)
@@ -205,9 +243,17 @@ def run(ctx):
 
 
 MUTANTS = [
+    Mutant('loop-body-always-runs', FILE, "        # The loop body may not be executed at all\n        self._visit_alternatives((o.body, ()), **kwargs)\n        if active:",
+           "        self._visit_alternatives((o.body,), **kwargs)\n        if active:", expect=('R1', 'FindReads:Loop:no-skip-alternative')),
+    Mutant('where-covers-all-elements', FILE, "        self._visit_alternatives((*o.bodies, o.default, ()), **kwargs)", "        self._visit_alternatives((*o.bodies, o.default), **kwargs)",
+           expect=('R1', 'FindReads:MaskedStatement:no-skip-alternative')),
+    Mutant('alternatives-share-state', FILE, "            self.candidate_set = original.copy() if original is not None else None\n            self.visit(body, **kwargs)",
+           "            self.visit(body, **kwargs)", expect=('R5', '_visit_alternatives:enter:alt2')),
+    Mutant('select-case-back-to-leaf', FILE, "    def visit_MultiConditional(self, o, **kwargs):\n        self._register_reads(self._symbols_from_expr((o.expr, o.values)))\n        self._visit_alternatives((*o.bodies, o.else_body), **kwargs)\n\n    visit_TypeConditional = visit_MultiConditional\n\n", "",
+           expect=('R1', 'FindReads:MultiConditional')),
     Mutant('else-visited-with-if-state', FILE, "        self.candidate_set, candidate_set = candidate_set, self.candidate_set\n        self.visit(o.else_body, **kwargs)\n",
            "        self.visit(o.else_body, **kwargs)\n", expect=('R5', 'enter:o.else_body')),
-    Mutant('merge-dropped', FILE, "        if self.candidate_set is not None:\n            self.candidate_set |= candidate_set\n\n    def visit_Loop", "\n    def visit_Loop",
+    Mutant('merge-dropped', FILE, "        if self.candidate_set is not None:\n            self.candidate_set |= candidate_set\n\n    def _visit_alternatives", "\n    def _visit_alternatives",
            expect=('R5', 'visit_Conditional:exit')),
     Mutant('neutral-two-step-swap', FILE, "        self.candidate_set, candidate_set = candidate_set, self.candidate_set\n",
            "        after_body = self.candidate_set\n        self.candidate_set = candidate_set\n        candidate_set = after_body\n", expect=None),
